@@ -88,6 +88,25 @@ def main(tier: str) -> int:
     if eq_ is not False or not bool(t_ns == t_ns.copy()) or t_ns() != 2.0 or t_sn() != -12.0:
         chk.fail("tree equality is not structural", {"left": "[neg, sub, xa, xb] = -(xa - xb)", "right": "[sub, neg, xa, xb] = (-xa - xb)", "equal": str(eq_),
                                                      "values": [float(t_ns()), float(t_sn())]}, {"fn": "__eq__", "clause": "sign"})
+    # the formula of a user-defined operator is a format string: every spelling of a field (explicit positions, a position used
+    # twice or out of order, escaped literal braces) must be honoured when the tree is printed
+    fsub = FunctionalNode(create_operator("({0} - {1})", "sub01", "-", lambda a, b: a - b))
+    frsub = FunctionalNode(create_operator("({1} - {0})", "rsub", "rsub", lambda a, b: b - a))
+    fsqr = FunctionalNode(create_operator("({0} * {0})", "sqr", "sqr", lambda a: a * a))
+    fspan = FunctionalNode(create_operator("span{{{}, {}}}", "span", "span", lambda a, b: a + 2 * b))
+    for nodes_, ref_v_, ref_s_ in (([fsub, xa, xb_], -2.0, "(xa - xb)"), ([frsub, xa, xb_], 2.0, "(xb - xa)"), ([fsqr, xb_], 49.0, "(xb * xb)"),
+                                   ([fspan, xa, sub_, xb_, xa], 9.0, "span{xa, (xb - xa)}"), ([fsub, fsqr, xa, frsub, xa, xb_], 23.0, "((xa * xa) - (xb - xa))")):
+        chk.case(("format_fields", ref_s_))
+        chk.count("format_fields")
+        try:
+            tz = _Tree(nodes_)
+            got_v_, got_s_ = float(tz()), str(tz)
+        except Exception as e:  # noqa
+            got_v_, got_s_ = repr(e)[:120], None
+        if got_v_ != ref_v_ or got_s_ != ref_s_:
+            chk.fail("str(tree) does not print the expression the tree denotes", {"formulas": [getattr(n, "_value")._formula if hasattr(getattr(n, "_value", None), "_formula") else n._name for n in nodes_],
+                                                                                  "got": got_s_, "reference": ref_s_, "value": got_v_, "reference_value": ref_v_},
+                     {"fn": "__str__", "clause": "format_fields"})
     for ti, t in enumerate(trees):
         fl = sy.flat(t)
         ar = [int(a) for a in t._n_args]
